@@ -33,6 +33,7 @@ static unsigned long long vf_get(char const * name, long idx) {
   if (vf_ntab < 0) vf_load();
   if (idx >= 0) sprintf(key, "%s[%ld]", name, idx); else sprintf(key, "%s", name);
   for (i = 0; i < vf_ntab; ++i) if (!strcmp(vf_tab[i].name, key)) return vf_tab[i].bits;
+  if (idx > 0) return vf_get(name, 0);      /* array element the counterexample trace did not mention (sliced away): take element 0's value - any value allowed by the assumptions will do */
   return 0;
 }
 static double vf_getd(char const * n, long i) {unsigned long long b = vf_get(n, i); double d; memcpy(&d, &b, 8); return d;}
